@@ -25,7 +25,8 @@ Fixpoint str_leb (a b : str) : bool :=
 Inductive pkey := KStr (s : str) | KInt (z : Z) | KBool (b : bool) | KNone | KBad.   (* KBad: e.g. a tuple as key *)
 Inductive pv :=
 | PNone | PBool (b : bool) | PInt (z : Z) | PFloat (r : str) (* float.hex() *) | PStr (s : str)
-| PList (l : list pv) | PTuple (l : list pv) | PDict (l : list (pkey * pv)) | POther. (* POther: set, bytes, object *)
+| PList (l : list pv) | PTuple (l : list pv) | PDict (l : list (pkey * pv))
+| POther (e : N).  (* not JSON: set, bytes, object (TypeError = 2); a container that contains itself (ValueError = 1) *)
 
 (* ---- DataStore._check_value ---- *)
 Definition key_is_str (k : pkey) : bool := match k with KStr _ => true | _ => false end.
@@ -38,8 +39,41 @@ Fixpoint check_value (v : pv) : bool :=
                   | [] => true
                   | (k, x) :: r => key_is_str k && check_value x && go r
                   end) l
-  | PTuple _ | POther => false
+  | PTuple _ | POther _ => false
   end.
+(* the exception _check_value raises: that of the first offending item in its traversal order *)
+Definition first_some {A} (f : A -> option N) : list A -> option N :=
+  fix go (l : list A) : option N :=
+    match l with [] => None | a :: r => match f a with Some e => Some e | None => go r end end.
+Fixpoint check_err (v : pv) : option N :=
+  match v with
+  | PNone | PBool _ | PInt _ | PFloat _ | PStr _ => None
+  | PList l => first_some check_err l
+  | PDict l => (fix go (l : list (pkey * pv)) : option N :=
+                  match l with
+                  | [] => None
+                  | (k, x) :: r => if key_is_str k then match check_err x with Some e => Some e | None => go r end
+                                   else Some 2
+                  end) l
+  | PTuple _ => Some 2
+  | POther e => Some e
+  end.
+(* the exception json.dumps raises (tuples and int/bool/None keys are fine for the encoder) *)
+Fixpoint dumps_err (v : pv) : option N :=
+  match v with
+  | PNone | PBool _ | PInt _ | PFloat _ | PStr _ => None
+  | PList l | PTuple l => first_some dumps_err l
+  | PDict l => (fix go (l : list (pkey * pv)) : option N :=
+                  match l with
+                  | [] => None
+                  | (k, x) :: r => match k with
+                                   | KBad => Some 2
+                                   | _ => match dumps_err x with Some e => Some e | None => go r end
+                                   end
+                  end) l
+  | POther e => Some e
+  end.
+Definition err_or (d : N) (o : option N) : N := match o with Some e => e | None => d end.
 
 (* ---- the stated effect of json.loads(json.dumps(v)) ---- *)
 Definition bstr (s : string) : str := bytes_of_string s.
@@ -89,7 +123,7 @@ Fixpoint json_image (v : pv) : option pv :=
                 | _, _, _ => None
                 end
             end) l)
-  | POther => None
+  | POther _ => None
   end.
 
 (* ---- exceptions ---- *)
@@ -184,16 +218,16 @@ Inductive sop :=
 Definition store_step (O : oracle) (strict : bool) (o : sop) (m : tbl) : option mop * result :=
   match o with
   | OSet s k v txt =>
-      if strict && negb (check_value v) then (None, RRaise ETypeErr)
+      if strict && negb (check_value v) then (None, RRaise (err_or 2 (check_err v)))
       else match txt with
-           | None => (None, RRaise ETypeErr)
+           | None => (None, RRaise (err_or 2 (dumps_err v)))
            | Some t => (Some (MSet s k t), RUnit)
            end
   | OGet s k => (None, match tlookup (s, k) m with Some t => RVal (o_loads O t) | None => RRaise EKey end)
   | OGetData s => (None, RRows (map (fun kt => (fst kt, o_loads O (snd kt))) (rows s m)))
   | ODel s k => (Some (MDel s k), RUnit)
   | ODelAll s => (Some (MDelAll s), RUnit)
-  | OFind k v txt => (None, match txt with Some t => RList (find_systems k t m) | None => RRaise ETypeErr end)
+  | OFind k v txt => (None, match txt with Some t => RList (find_systems k t m) | None => RRaise (err_or 2 (dumps_err v)) end)
   | OList => (None, RList (list_systems m))
   end.
 
@@ -233,7 +267,7 @@ Definition source_step (O : oracle) (c : srccfg) (q : qop) (m : tbl) : result :=
       | None => ROpt None
       | Some k => match txt with
                   | Some t => ROpt (single (find_systems k t m))
-                  | None => RRaise ETypeErr
+                  | None => RRaise (err_or 2 (dumps_err v))
                   end
       end
   end.
@@ -269,9 +303,9 @@ Definition body_bytes (O : oracle) (r : request) : option str :=       (* body.r
   | Some n => Some (if (n <? 0)%Z then body r else firstn (Z.to_nat n) (body r))
   end.
 Definition set_checked (s k : str) (v : pv) (txt : option str) : option mop * result :=
-  if negb (check_value v) then (None, RRaise ETypeErr)
+  if negb (check_value v) then (None, RRaise (err_or 2 (check_err v)))
   else match txt with
-       | None => (None, RRaise ETypeErr)
+       | None => (None, RRaise (err_or 2 (dumps_err v)))
        | Some t => (Some (MSet s k t), RHttp 200)
        end.
 Definition handler_step (O : oracle) (c : hcfg) (r : request) : option mop * result :=
@@ -306,8 +340,11 @@ Definition handler_step (O : oracle) (c : hcfg) (r : request) : option mop * res
 (* ---- several handles on one table ---- *)
 Record handles := { stores : list bool; sources : list srccfg; handlers : list hcfg }.
 Inductive step :=
-| SStore (i : nat) (o : sop) | SSource (i : nat) (q : qop) | SHandler (i : nat) (r : request).
+| SStore (i : nat) (o : sop) | SSource (i : nat) (q : qop) | SHandler (i : nat) (r : request)
+| SLock (b : bool)        (* another connection takes (BEGIN IMMEDIATE) / gives up (ROLLBACK) the write lock *)
+| SExt (o : mop).         (* a statement issued by a foreign program directly on the database file *)
 Definition E_NO_HANDLE : err := 96.
+Definition EOperational : err := 20.     (* sqlite3.OperationalError: database is locked *)
 Definition do_step (O : oracle) (H : handles) (st : step) (m : tbl) : option mop * result :=
   match st with
   | SStore i o => match nth_error (stores H) i with
@@ -322,21 +359,43 @@ Definition do_step (O : oracle) (H : handles) (st : step) (m : tbl) : option mop
                     | Some c => handler_step O c r
                     | None => (None, RRaise E_NO_HANDLE)
                     end
+  | SLock _ => (None, RUnit)
+  | SExt o => (Some o, RUnit)
+  end.
+(* Fault dimension "database locked": while another connection holds the write lock, a step that would issue
+   a mutating statement fails with OperationalError after the busy timeout and writes nothing; everything
+   that is decided before the statement (strict check, method, access, body decoding) and all reads are as
+   usual. *)
+Definition do_step_l (O : oracle) (H : handles) (st : step) (lk : bool) (m : tbl) : option mop * result * bool :=
+  match st with
+  | SLock b => (None, RUnit, b)
+  | _ => match do_step O H st m with
+         | (Some o, res) => if lk then (None, RRaise EOperational, lk) else (Some o, res, lk)
+         | (None, res) => (None, res, lk)
+         end
   end.
 Definition apply_omop (m : tbl) (o : option mop) : tbl := match o with Some x => apply_mop m x | None => m end.
 (* observation: per step the result and the table as another process reads it right after the step *)
-Fixpoint run (O : oracle) (H : handles) (steps : list step) (m : tbl) : list (result * tbl) :=
+Fixpoint run (O : oracle) (H : handles) (steps : list step) (lk : bool) (m : tbl) : list (result * tbl) :=
   match steps with
   | [] => []
   | st :: r =>
-      let (o, res) := do_step O H st m in
-      let m' := apply_omop m o in
-      (res, dump m') :: run O H r m'
+      match do_step_l O H st lk m with
+      | (o, res, lk') =>
+          let m' := apply_omop m o in
+          (res, dump m') :: run O H r lk' m'
+      end
   end.
-Fixpoint final (O : oracle) (H : handles) (steps : list step) (m : tbl) : tbl :=
+Fixpoint final (O : oracle) (H : handles) (steps : list step) (lk : bool) (m : tbl) : tbl :=
   match steps with
   | [] => m
-  | st :: r => final O H r (apply_omop m (fst (do_step O H st m)))
+  | st :: r => final O H r (snd (do_step_l O H st lk m)) (apply_omop m (fst (fst (do_step_l O H st lk m))))
+  end.
+Fixpoint lock_after (steps : list step) (lk : bool) : bool :=
+  match steps with
+  | [] => lk
+  | SLock b :: r => lock_after r b
+  | _ :: r => lock_after r lk
   end.
 
 (* ---- a writer process that is killed ----
